@@ -52,7 +52,7 @@ Definition reg_ok (r : reg) (c : regcase) : bool :=
       | _, _ => false
       end
   | RSymbol s e =>
-      match get_symbol r s, e with
+      match get_symbol_exact r s, e with
       | Ok n, Some n' => String.eqb n n'
       | Err _, None => true
       | _, _ => false
